@@ -423,7 +423,19 @@ where
                     .unwrap()
             })
             .collect();
-        handles.into_iter().map(|h| h.join().expect("harness shard panicked")).collect()
+        handles
+            .into_iter()
+            .map(|h| match h.join() {
+                Ok(r) => r,
+                Err(e) => {
+                    // a bug in the harness must never look like a verdict
+                    let msg = e.downcast_ref::<String>().cloned().or_else(|| e.downcast_ref::<&str>().map(|s| s.to_string())).unwrap_or_else(|| "?".into());
+                    let mut r = Report::new("?", "quick", 0, "exploration");
+                    r.inconclusive(&format!("harness error: a worker thread panicked: {}", msg.chars().take(300).collect::<String>()));
+                    r
+                }
+            })
+            .collect()
     });
     for r in shards {
         report.merge(r);
